@@ -77,6 +77,11 @@ where
 
     // Normalise so that a^2+b^2 = 1
     let factor      = (a*a + b*b).sqrt();
+    if factor == 0.0 {
+        // This is a point rather than a line (see is_point()): there is nothing to normalise
+        return LineCoefficients(0.0, 0.0, 0.0);
+    }
+
     let (a, b, c)   = (a/factor, b/factor, c/factor);
 
     LineCoefficients(a, b, c)
